@@ -1,7 +1,7 @@
 (* C16 -- character-level operations work on whole Unicode characters.
    GENERATED from Properties/src/C16.props by tools/mkprops.py; property theorems only. *)
 From SP Require Import Model.Impl Model.Spec.
-From SP Require Import Proofs.ImplSpec Proofs.CharOps Proofs.RangeP.
+From SP Require Import Proofs.ImplSpec Proofs.CharOps Proofs.IdemP Proofs.RangeP.
 
 (* exactly the requested width in characters, never truncating *)
 Theorem C16_pad_reaches_width :
@@ -65,6 +65,43 @@ Proof. exact trim_custom_set. Qed.
 Check C16_custom_set :
   forall (chars : str) (c : N), forallb is_ws chars = false -> trim_pred chars c = mem_cp c chars.
 Print Assumptions C16_custom_set.
+
+(* trimming what is already trimmed changes nothing, for every set and side *)
+Theorem C16_trim_idempotent :
+  forall (f : N -> bool) (d : tdir) (s : str), trim_with f d (trim_with f d s) = trim_with f d s.
+Proof. exact trim_idempotent. Qed.
+Check C16_trim_idempotent :
+  forall (f : N -> bool) (d : tdir) (s : str), trim_with f d (trim_with f d s) = trim_with f d s.
+Print Assumptions C16_trim_idempotent.
+
+(* a text whose first and last characters are outside the set is returned as it is *)
+Theorem C16_trim_leaves_clean_text :
+  forall (f : N -> bool) (d : tdir) (s : str),
+  match s with [] => True | c :: _ => f c = false end ->
+  match rev s with [] => True | c :: _ => f c = false end ->
+  trim_with f d s = s.
+Proof. exact trim_fixed. Qed.
+Check C16_trim_leaves_clean_text :
+  forall (f : N -> bool) (d : tdir) (s : str),
+  match s with [] => True | c :: _ => f c = false end ->
+  match rev s with [] => True | c :: _ => f c = false end ->
+  trim_with f d s = s.
+Print Assumptions C16_trim_leaves_clean_text.
+
+(* padding what already has the width changes nothing *)
+Theorem C16_pad_idempotent :
+  forall (w c : N) (d : pdir) (s : str), pad_str w c d (pad_str w c d s) = pad_str w c d s.
+Proof. exact pad_idempotent. Qed.
+Check C16_pad_idempotent :
+  forall (w c : N) (d : pdir) (s : str), pad_str w c d (pad_str w c d s) = pad_str w c d s.
+Print Assumptions C16_pad_idempotent.
+
+Theorem C16_pad_wide_enough :
+  forall (w c : N) (d : pdir) (s : str), (w <= N.of_nat (length s))%N -> pad_str w c d s = s.
+Proof. exact pad_wide_enough. Qed.
+Check C16_pad_wide_enough :
+  forall (w c : N) (d : pdir) (s : str), (w <= N.of_nat (length s))%N -> pad_str w c d s = s.
+Print Assumptions C16_pad_wide_enough.
 
 (* reverse and substring move whole characters: they commute with any relabelling
    of characters (e.g. swapping an ASCII letter for a 4-byte one) *)
